@@ -3,13 +3,17 @@
    failure, and the written hunk - followed by anything that does not start with a backslash, as is
    the case inside a written patch - is parsed back as the same hunk: same old side, same new side
    (lines without final newline included), same start lines, same function text.
+   Proved here as well (file-patch and patch level): a file name is printed (plain or as a quoted C string) and
+   read back as the same bytes; a well-formed file patch with at least one hunk - any names, rename
+   flag, modes, hashes - is written and read back as the same file patch (same kind included), and so
+   is a sequence of them (a whole written patch without leading text).
    The full statement (whole patches: headers, names, modes, hashes, garbage) is stated below as
    C12_full_statement; it is FALSE of the faithful model for the known class
    'hunkless file patch without reproducible metadata' (C12_full_statement_refuted, a vm_compute
    witness) and is otherwise decided by the differential and statement runs of tools/props/C12.py. *)
 From Coq Require Import List ZArith NArith Bool String.
 Import ListNotations.
-From RQ Require Import Base Apply Parser Writer WriterProofs.
+From RQ Require Import Base Apply Parser Writer WriterProofs FilenameProofs HeaderProofs.
 
 Theorem C12_hunk_roundtrip :
   forall input rest0 ph rest,
@@ -40,12 +44,39 @@ Theorem C12_parser_output_wf : forall input rest ph, parse_hunk input = Ok (POk 
 Proof. exact parse_hunk_wf. Qed.
 Print Assumptions C12_parser_output_wf.
 
-(* ---------- the full statement, and the known class that refutes it ---------- *)
+(* ---------- names, header lines, file patches, patches ---------- *)
 
-Definition same_fp (a c : pfilepatch) : Prop :=
-  pf_kind a = pf_kind c /\ pf_old a = pf_old c /\ pf_new a = pf_new c /\ pf_rename a = pf_rename c /\
-  pf_operm a = pf_operm c /\ pf_nperm a = pf_nperm c /\ pf_ohash a = pf_ohash c /\ pf_nhash a = pf_nhash c /\
-  Forall2 same_hunk (pf_hunks a) (pf_hunks c).
+(* any byte string as a name: printed plain or quoted with escapes, read back as the same bytes *)
+Theorem C12_filename_roundtrip :
+  forall n rest, Forall is_byte n -> ends_name rest ->
+    parse_filename (write_filename n ++ rest) = POk rest (mk_filename n).
+Proof. exact filename_roundtrip. Qed.
+Print Assumptions C12_filename_roundtrip.
+
+(* the six-digit octal modes of the git header lines *)
+Theorem C12_mode_roundtrip :
+  forall p rest, (p < 262144)%N -> not_oct_start rest -> parse_mode (oct6 p ++ rest) = POk rest p.
+Proof. exact mode_roundtrip. Qed.
+Print Assumptions C12_mode_roundtrip.
+
+(* a well-formed file patch with hunks: header lines and hunks are read back as the same file patch *)
+Theorem C12_file_patch_roundtrip :
+  forall fp out rest, wf_fp fp -> rest_ok rest -> write_filepatch fp = Ok out ->
+    exists fp', parse_filepatch (out ++ rest) false = Ok (POk rest ([], fp')) /\ same_fp fp fp'.
+Proof. exact write_parse_filepatch. Qed.
+Print Assumptions C12_file_patch_roundtrip.
+
+(* a sequence of them: the written patch is read back (at strip level 0) as the same file patches *)
+Theorem C12_patch_roundtrip :
+  forall fps, Forall wf_fp fps -> Forall fp_names_ok fps ->
+  forall out fuel hdr acc, write_filepatches fps = Ok out -> (List.length fps < fuel)%nat ->
+    exists fps', parse_patch_loop fuel out 0 false hdr acc
+                 = Ok (Parsed {| pp_header := hdr; pp_fps := acc ++ fps' |}) /\
+                 Forall2 same_fp (List.map (strip_fp 0) fps) fps'.
+Proof. exact write_parse_patch. Qed.
+Print Assumptions C12_patch_roundtrip.
+
+(* ---------- the full statement, and the known class that refutes it ---------- *)
 
 Definition C12_full_statement : Prop :=
   forall bs p, parse_patch bs 0 true = Ok (Parsed p) ->
@@ -92,4 +123,36 @@ Example C12_witness :
 "; b "b"]
   | _ => False
   end.
+Proof. vm_compute. repeat split; reflexivity. Qed.
+
+(* Non-vacuity of the file-patch theorem: a parsed git file patch with rename, modes, hashes, a quoted name
+   with an escape and two hunks is well-formed in the sense of wf_fp, and its written form is read back. *)
+Definition ex_fp_text : bytes := b "diff --git a/old b/""new\303\244 x""
+rename from old
+rename to ""new\303\244 x""
+old mode 100644
+new mode 100755
+index 0123abc..def4567
+--- a/old
++++ ""b/new\303\244 x""
+@@ -1,2 +1,2 @@
+ a
+-b
++c
+@@ -7 +7,2 @@ fn
+ z
++y
+".
+Definition ex_fp : pfilepatch :=
+  Eval vm_compute in match parse_filepatch ex_fp_text false with
+                     | Ok (POk _ (_, fp)) => fp
+                     | _ => {| pf_kind := Modify; pf_old := None; pf_new := None; pf_rename := false; pf_operm := None;
+                               pf_nperm := None; pf_ohash := None; pf_nhash := None; pf_hunks := [] |} end.
+Example C12_fp_witness :
+  pf_rename ex_fp = true /\ List.length (pf_hunks ex_fp) = 2%nat /\ pf_operm ex_fp = Some 33188%N /\
+  match write_filepatch ex_fp with
+  | Ok out => match parse_filepatch out false with
+              | Ok (POk [] ([], fp')) => pf_new fp' = pf_new ex_fp /\ pf_ohash fp' = pf_ohash ex_fp
+              | _ => False end
+  | _ => False end.
 Proof. vm_compute. repeat split; reflexivity. Qed.
